@@ -28,6 +28,8 @@ def random_cfg(rng, family=None, n_max=10):
         cfg.update(n=rng.randint(1, 4), d=rng.randint(1, 2), t=t, kernel=rng.choice(["rbf", "matern1.5", "scale(rbf)"]),
                    krank=rng.randint(0, t), lrank=rng.randint(0, t), batch="none", b=0,
                    mean="constant", lik="multitask")
+        if rng.random() < 0.4:
+            cfg.update(batch="data", b=rng.randint(2, 3))
     else:
         cfg.update(n=rng.randint(1, n_max), d=rng.randint(1, 3), kernel=rng.choice(KERNELS), mean=rng.choice(MEANS),
                    lik=rng.choice(LIKS), batch=rng.choice(BATCH), b=rng.randint(2, 3), t=1)
@@ -44,6 +46,10 @@ def random_cfg(rng, family=None, n_max=10):
             pri.append([site, kind, round(rng.uniform(0.3, 1.5), 3), round(rng.uniform(0.4, 2.0), 3)])
     if rng.random() < 0.25:
         pri = []
+    if family == "multitask" and cfg["lrank"] == 0 and rng.random() < 0.5:
+        # the built-in `noise_prior` of a rank-0 multitask likelihood sits on `task_noises` (shape [t])
+        pri.append(["task_noises", rng.choice(["gamma", "lognormal", "normal"]), round(rng.uniform(0.3, 1.5), 3),
+                    round(rng.uniform(0.4, 2.0), 3)])
     cfg["priors"] = pri
     return cfg
 
@@ -186,7 +192,7 @@ def build(cfg):
             else:
                 with torch.no_grad():
                     lik.task_noise_covar_factor.copy_(_pos(torch, gen, (t, cfg["lrank"]), -0.6, 0.6))
-            train_y = _pos(torch, gen, (n, t), -1.5, 1.5)
+            train_y = _pos(torch, gen, (*yb, n, t), -1.5, 1.5)
 
             class GP(gpytorch.models.ExactGP):
                 def __init__(s):
@@ -236,6 +242,8 @@ def build(cfg):
                     targets.append((name, mod, "noise"))
                 elif site == "noise" and isinstance(mod, L.MultitaskGaussianLikelihood):
                     targets.append((name, mod, "noise"))
+                elif site == "task_noises" and isinstance(mod, L.MultitaskGaussianLikelihood) and mod.rank == 0:
+                    targets.append((name, mod, "task_noises"))
                 elif site == "constant" and isinstance(mod, M.ConstantMean):
                     targets.append((name, mod, "constant"))
             for name, mod, attr in targets:
